@@ -1,5 +1,7 @@
 package erpc
 
+import "github.com/henrylee2cn/erpc/v6/socket"
+
 func init() {
 	vxRegister("VX_C14_Races", VX_C14_Races)
 }
@@ -99,6 +101,26 @@ func VX_C14_Races(args []int) {
 		run(func() { p.ServeConn(c2) })
 		run(func() { p.GetSession("cli:2"); p.GetSession("cli:9"); p.CountSession(); p.RangeSession(func(Session) bool { return true }) })
 		n = 3
+	case 13: // a completed call's reply metadata is read while further replies are received
+		var r1 []byte
+		c1 := s.AsyncCall("/a", []byte("1"), &r1, make(chan CallCmd, 1))
+		conn.feed(vxFrame(TypeReply, c1.Output().Seq(), "", []byte("r1"), socket.WithAddMeta("tag", "first")))
+		vxWaitIdle()
+		c2 := s.AsyncCall("/b", []byte("2"), new([]byte), make(chan CallCmd, 1))
+		c3 := s.AsyncCall("/c", []byte("3"), new([]byte), make(chan CallCmd, 1))
+		conn.feed(vxFrame(TypeReply, c2.Output().Seq(), "", []byte("r2"), socket.WithAddMeta("tag", "second")))
+		conn.feed(vxFrame(TypeReply, c3.Output().Seq(), "", []byte("r3"), socket.WithAddMeta("tag", "third")))
+		run(func() {
+			for k := 0; k < 3; k++ {
+				_ = c1.InputMeta().QueryString()
+				_ = c1.InputMeta().Peek("tag")
+				vxYield()
+			}
+		})
+		n = 1
+		defer func() {
+			vxAssert(string(c1.InputMeta().Peek("tag")) == "first", "[C01] a completed call keeps the metadata of its own reply while later replies arrive")
+		}()
 	case 6: // call vs remote close
 		run(func() { s.AsyncCall("/a", []byte("1"), new([]byte), make(chan CallCmd, 1)) })
 		conn.end()
